@@ -74,9 +74,45 @@ def setup():
 def _load():
     from mirsym import mirparse, enums
     path, t, cached = dump_mir()
-    prog = mirparse.Program(open(path).read())
+    text = open(path).read()
+    prog = mirparse.Program(text)
+    prog.text = text
     en = enums.scan(REPO)
     return prog, en, path, t
+
+
+def run_jobs(jobs, workers=None):
+    """jobs: list of (name, thunk) where thunk() -> obligation dict (JSON-able). Runs them in forked worker processes."""
+    import multiprocessing as mp
+    import traceback
+    workers = workers or min(8, max(1, len(jobs)))
+    if len(jobs) <= 1 or os.environ.get("VERIF_MIR_SERIAL"):
+        return [t() for _, t in jobs]
+    ctx = mp.get_context("fork")
+    q = ctx.Queue()
+
+    def work(i, thunk):
+        try:
+            q.put((i, thunk()))
+        except Exception as e:  # noqa
+            q.put((i, dict(name=jobs[i][0], engine="mirsym", functions=[], bounds="", oracle="", stubs=[], tier="",
+                           verdict="inconclusive", reason="worker crashed: %s %s" % (e, traceback.format_exc()[-300:]),
+                           queries=0, solver_time_s=0, failed=[])))
+    results = [None] * len(jobs)
+    pending = list(range(len(jobs)))
+    running = {}
+    done = 0
+    while done < len(jobs):
+        while pending and len(running) < workers:
+            i = pending.pop(0)
+            pr = ctx.Process(target=work, args=(i, jobs[i][1]))
+            pr.start()
+            running[i] = pr
+        i, res = q.get()
+        results[i] = res
+        running.pop(i).join()
+        done += 1
+    return results
 
 
 def fmt_ip(v):
@@ -173,6 +209,14 @@ def run_property(pid, tier, seed, logdir):
                 obligations.append(dict(name=name, engine="mirsym", functions=[], bounds=bounds, oracle=oracle, stubs=lift_stub, tier=tier,
                                         verdict="inconclusive", reason=f"outside the encoder's subset: {e}", queries=0, solver_time_s=0, failed=[]))
         return obligations
+    if pid in POOL_PROPS:
+        from mirsym import sqlmodel
+        try:
+            ddl, keys = sqlmodel.extract_schema(prog.text)
+            common_stubs.append("lease-table schema read from the DDL in the current source: unique keys %s" % keys)
+        except Unsupported as e:
+            return [dict(name=f"{pid.lower()}_schema", engine="mirsym", functions=[], bounds="", oracle="", stubs=common_stubs, tier=tier,
+                         verdict="inconclusive", reason=f"lease-table schema outside the SQL model: {e}", queries=0, solver_time_s=0, failed=[])]
     if pid == "C20":
         for n in ([1, 3] if tier == "quick" else [1, 2, 3, 4, 5]):
             name = f"c20_gauges_table_of_{n - 1}_rows_or_fewer"
@@ -197,22 +241,22 @@ def run_property(pid, tier, seed, logdir):
                                         verdict="inconclusive", reason=f"outside the encoder's subset: {e}", queries=0, solver_time_s=0, failed=[]))
         return _with_replay(pid, obligations, logdir)
     po = props_pool.PoolObligations(prog, en, tier, None)
-    fn = None
-    for step in po.shapes():
-        name = f"{pid.lower()}_step_rows{step.n_rows - 1}_pool{step.pool_size}_{'req' if step.with_request else 'noreq'}"
+    from mirsym.interp import Exec
+    from mirsym.summaries import S
+    import z3
+    ORACLE = {"C01": "granted address not held unexpired by another client; exactly one row for it, owned by the asker; pool membership; invariant preserved; refusal leaves the table unchanged",
+              "C02": "granted address is a member of the pool set passed by the policy layer",
+              "C09": "client holding an unexpired in-pool lease gets one of those (the named one if it holds it); refused only with NoAssignableAddress and only if every pool address is held unexpired by another client",
+              "C10": "min <= advertised <= max; stored start = reply time, expiry = start + advertised (no wrap); no arithmetic panic on any path",
+              "C13": "a successful step changes only the row of the granted address; a refused step changes nothing"}
+
+    def pool_job(step, name):
         t0 = time.time()
-        from mirsym.interp import Exec
-        from mirsym.summaries import S
         ex = Exec(prog, S, en, max_unroll=step.pool_size + 3)
         try:
             fn = po.find("allocate_address", 7)
-
-            def run(e, step=step):
-                return e.call_fn(fn, props_pool.setup_step(e, step))
-            paths = ex.explore(run)
-            failed = []
-            nclaims = 0
-            sigs = {}
+            paths = ex.explore(lambda e: e.call_fn(fn, props_pool.setup_step(e, step)))
+            failed, nclaims, sigs = [], 0, {}
             for outcome, val, pc, env in paths:
                 if outcome == "panic":
                     sig = "panic"
@@ -227,36 +271,73 @@ def run_property(pid, tier, seed, logdir):
                         continue
                     nclaims += 1
                     soft = props_pool.replayable(env)
-                    import z3
                     model = props_pool.check(ex, pc, formula, cname, extra=[z3.Not(e) for _, e in excuses], prefer=soft)
                     if model is not None:
-                        d = props_pool.describe(model, env, dict(outcome=sig))
-                        failed.append(dict(check=name, description=f"{cname} [{sig}]", location="dhcp/pool.rs allocate_address",
-                                           kind="violation", counterexample=d))
+                        failed.append(dict(check=name, description=f"{cname} [{sig}]", location="dhcp/pool.rs allocate_address", kind="violation",
+                                           counterexample=props_pool.describe(model, env, dict(outcome=sig))))
                     for fid, e in excuses:
                         model = props_pool.check(ex, pc, formula, cname, extra=[e], prefer=soft)
                         if model is not None:
-                            d = props_pool.describe(model, env, dict(outcome=sig))
-                            failed.append(dict(check=name, description=f"{cname} [{sig}] {{{fid}}}", location="dhcp/pool.rs allocate_address",
-                                               kind="violation", counterexample=d))
-            obligations.append(dict(
+                            failed.append(dict(check=name, description=f"{cname} [{sig}] {{{fid}}}", location="dhcp/pool.rs allocate_address", kind="violation",
+                                               counterexample=props_pool.describe(model, env, dict(outcome=sig))))
+            return dict(
                 name=name, engine="mirsym", functions=sorted(f.split("::")[-1] for f in ex.encoded_fns),
                 bounds=f"ONE allocate_address step from an arbitrary lease table of <= {step.n_rows - 1} rows (all columns symbolic, invariant assumed), "
                        f"pool of {step.pool_size} symbolic distinct addresses, {'symbolic requested address' if step.with_request else 'no requested address'}, "
                        f"symbolic client, symbolic min<=max lease (<= 366 d), symbolic non-decreasing clock; iterator loops unrolled {step.pool_size + 3}x with unwinding check; inductive over histories",
-                oracle={"C01": "granted address not held unexpired by another client; exactly one row for it, owned by the asker; pool membership; invariant preserved; refusal leaves the table unchanged",
-                        "C02": "granted address is a member of the pool set passed by the policy layer",
-                        "C09": "client holding an unexpired in-pool lease gets one of those (the named one if it holds it); refused only with NoAssignableAddress and only if every pool address is held unexpired by another client",
-                        "C10": "min <= advertised <= max; stored start = reply time, expiry = start + advertised (no wrap); no arithmetic panic on any path",
-                        "C13": "a successful step changes only the row of the granted address; a refused step changes nothing"}[pid],
-                stubs=common_stubs + sorted(ex.used_summaries), tier=tier, verdict="fail" if failed else "pass", reason="",
+                oracle=ORACLE[pid], stubs=common_stubs + sorted(ex.used_summaries), tier=tier, verdict="fail" if failed else "pass", reason="",
                 queries=ex.queries, solver_time_s=round(ex.solver_time, 2), failed=_dedup(failed), paths=len(paths), path_kinds=sigs,
-                claims_checked=nclaims, wall_s=round(time.time() - t0, 1),
-                sql=sorted(set(s for p in paths for s in p[3].get("sql", [])))[:8]))
+                claims_checked=nclaims, wall_s=round(time.time() - t0, 1), sql=sorted(set(s for p in paths for s in p[3].get("sql", [])))[:8])
         except (Unsupported, Unwind) as e:
-            obligations.append(dict(name=name, engine="mirsym", functions=[], bounds="", oracle="", stubs=common_stubs, tier=tier,
-                                    verdict="inconclusive", reason=f"outside the encoder's subset: {e}", queries=ex.queries,
-                                    solver_time_s=round(ex.solver_time, 2), failed=[]))
+            return dict(name=name, engine="mirsym", functions=[], bounds="", oracle="", stubs=common_stubs, tier=tier, verdict="inconclusive",
+                        reason=f"outside the encoder's subset: {e}", queries=ex.queries, solver_time_s=round(ex.solver_time, 2), failed=[])
+    jobs = []
+    for step in po.shapes():
+        name = f"{pid.lower()}_step_rows{step.n_rows - 1}_pool{step.pool_size}_{'req' if step.with_request else 'noreq'}"
+        jobs.append((name, (lambda step=step, name=name: pool_job(step, name))))
+
+    # ---- message handling on top of the pool model (dhcp/mod.rs handle_pkt) ------------------------------------
+    HANDLER = {
+        "C13": [("other", None), ("request", None), ("discover", None), ("request", 54), ("discover", 54)],
+        "C10": [("request", None), ("discover", None), ("request", 51), ("discover", 51)],
+        "C01": [("request", None), ("discover", None)],
+        "C09": [("request", None), ("discover", None)],
+    }
+    CLAIM_FILTER = {
+        "C13": ("only DISCOVER", "a REQUEST naming", "a message that is not answered", "reply echoes", "the lease store changes only", "reply message type",
+                "reply carries a server identifier", "server identifier names", "message handling never panics"),
+        "C10": ("every OFFER and ACK", "advertised lease time"),
+        "C01": ("the lease store changes only", "pool is asked on behalf"),
+        "C09": ("address named to the pool", "a named address is handed"),
+    }
+
+    def handler_job(kind, pset, name):
+        from mirsym import props_dhcp, enums as _en
+        t0 = time.time()
+        try:
+            structs = _en.scan_structs(REPO)
+            failed, ex, npaths, kinds = props_dhcp.obligation(prog, en, structs, kind, pset, n_rows=2 if tier == "quick" else 3, only=CLAIM_FILTER[pid])
+            failed = [f for f in failed if f["description"].startswith(CLAIM_FILTER[pid])]
+            for f in failed:
+                f["check"] = name
+            return dict(
+                name=name, engine="mirsym", functions=sorted(f.split("::")[-1] for f in ex.encoded_fns),
+                bounds=("handle_pkt on a %s message with every header field symbolic, server-id option absent/any value, requested-address option absent/any, one server id, "
+                        "lease table of <= %d rows + pool of 1 symbolic address (pool model as C01), policy layer replaced by an arbitrary outcome (matched or not, address set granted or not, "
+                        "symbolic min<=max lease%s)") % ({"other": "non-DISCOVER/REQUEST or untyped", "request": "REQUEST", "discover": "DISCOVER"}[kind], 1 if tier == "quick" else 2,
+                                                         ", a matching policy overriding option %d with any value or null" % pset if pset else ""),
+                oracle="; ".join(CLAIM_FILTER[pid]),
+                stubs=common_stubs + ["apply_policies / build_default_config = arbitrary policy outcome (havoc)", "DhcpOptions accessors (get_messagetype, get_serverid, get_address_request, get_client_id) = the decoded value of their option (arbitrary)",
+                                      "request option re-serialisation (raw options blob) = no-op", "response option table = map with concrete option codes"] + sorted(ex.used_summaries),
+                tier=tier, verdict="fail" if failed else "pass", reason="", queries=ex.queries, solver_time_s=round(ex.solver_time, 2), failed=_dedup(failed),
+                paths=npaths, path_kinds=kinds, wall_s=round(time.time() - t0, 1))
+        except (Unsupported, Unwind) as e:
+            return dict(name=name, engine="mirsym", functions=[], bounds="", oracle="", stubs=common_stubs, tier=tier, verdict="inconclusive",
+                        reason=f"outside the encoder's subset: {e}", queries=0, solver_time_s=0, failed=[])
+    for kind, pset in HANDLER.get(pid, []):
+        name = f"{pid.lower()}_handle_pkt_{kind}" + (f"_policy_sets_{pset}" if pset else "")
+        jobs.append((name, (lambda kind=kind, pset=pset, name=name: handler_job(kind, pset, name))))
+    obligations.extend(run_jobs(jobs))
     return _with_replay(pid, obligations, logdir)
 
 
